@@ -7,6 +7,7 @@ import (
 	"math"
 	"math/rand"
 	"path/filepath"
+	"runtime"
 	"sort"
 	"strconv"
 	"strings"
@@ -369,25 +370,44 @@ func init() {
 				cerr := rep.Close()
 				// wait for the datagrams the sender is known to have emitted (loopback delivery may lag on a busy machine)
 				waitDatagrams(cols[dead:], int(emitted.Load()), 2*time.Second)
-				logEmits(cols, compact, common, constructedLo, callHi, cids, &mu, log)
+				logEmits(cols, compact, maxPacket, common, constructedLo, callHi, cids, &mu, log)
 				alive := reporterGoroutinesAlive()
 				log(M{"e": "ret", "t": "main", "op": "close", "err": cerr != nil, "alive": alive && false})
 			}
-			if closeConcurrently {
-				time.Sleep(time.Duration(rng.Intn(300)) * time.Microsecond)
-				closeIt()
-				wg.Wait()
-			} else {
-				wg.Wait()
-				closeIt()
+			closeDelay := time.Duration(rng.Intn(300)) * time.Microsecond
+			finished := make(chan struct{})
+			go func() {
+				defer close(finished)
+				if closeConcurrently {
+					time.Sleep(closeDelay)
+					closeIt()
+					wg.Wait()
+				} else {
+					wg.Wait()
+					closeIt()
+				}
+				// a second Close, and anything that still arrives afterwards
+				err2 := rep.Close()
+				log(M{"e": "call", "t": "main2", "op": "close"})
+				log(M{"e": "ret", "t": "main2", "op": "close", "err": err2 != nil, "alive": false})
+			}()
+			if where := hangWatch(finished); where != "" {
+				// producers, Close and the reporter's goroutines have not moved for seconds: the history ends here
+				// (the goroutines stay behind, so does this run)
+				log(M{"e": "deadlock", "where": where})
+				mu.Lock()
+				for _, e := range ev {
+					tr.Emit(e)
+				}
+				mu.Unlock()
+				tr.Emit(M{"e": "endx"})
+				tr.Close()
+				writeMeta(cm.out, M{"cases": ci + 1, "execs": ci + 1, "events": tr.N, "evals": evals, "distinct": len(distinct), "samples": samples, "hung": true})
+				return
 			}
-			// a second Close, and anything that still arrives afterwards
-			err2 := rep.Close()
-			log(M{"e": "call", "t": "main2", "op": "close"})
-			log(M{"e": "ret", "t": "main2", "op": "close", "err": err2 != nil, "alive": false})
 			time.Sleep(5 * time.Millisecond)
 			waitDatagrams(cols[dead:], int(emitted.Load()), time.Second)
-			logEmits(cols, compact, common, constructedLo, callHi, cids, &mu, log)
+			logEmits(cols, compact, maxPacket, common, constructedLo, callHi, cids, &mu, log)
 			tally.VerifSetHook(nil, nil)
 			log(M{"e": "end", "pending": int(m3.VerifStateOf(rep).Pending), "qlen": 0, "done": true})
 			for _, c := range cols {
@@ -433,6 +453,68 @@ func waitDatagrams(cols []*sinkCollector, n int, timeout time.Duration) {
 	}
 }
 
+// hangWatch waits for a history to finish.  A history takes milliseconds; when it has not finished after 20 s the
+// stacks of the goroutines inside the m3 reporter are compared three times, one second apart: identical stacks
+// (nobody moved) are reported as the place where the code hangs; otherwise the wait goes on (up to 5 minutes,
+// then the run is abandoned as an infrastructure problem).
+func hangWatch(finished chan struct{}) string {
+	select {
+	case <-finished:
+		return ""
+	case <-time.After(20 * time.Second):
+	}
+	deadline := time.Now().Add(5 * time.Minute)
+	for time.Now().Before(deadline) {
+		var dumps []string
+		for k := 0; k < 3; k++ {
+			dumps = append(dumps, m3Stacks())
+			select {
+			case <-finished:
+				return ""
+			case <-time.After(time.Second):
+			}
+		}
+		if dumps[0] == dumps[1] && dumps[1] == dumps[2] && dumps[0] != "" {
+			return dumps[0]
+		}
+	}
+	fatal("c13: a history did not finish within 5 minutes although its goroutines keep moving")
+	return ""
+}
+
+// m3Stacks: for every goroutine with a frame in the m3 package, its state and the m3 frames (innermost first)
+func m3Stacks() string {
+	buf := make([]byte, 1<<22)
+	buf = buf[:runtime.Stack(buf, true)]
+	var out []string
+	for _, g := range strings.Split(string(buf), "\n\n") {
+		if !strings.Contains(g, "tally/v4/m3.") {
+			continue
+		}
+		lines := strings.Split(g, "\n")
+		state := ""
+		if i := strings.Index(lines[0], "["); i >= 0 {
+			state = strings.TrimRight(lines[0][i:], ":")
+			if j := strings.Index(state, ","); j >= 0 {
+				state = state[:j] + "]" // drop "N minutes"
+			}
+		}
+		var frames []string
+		for _, l := range lines[1:] {
+			if strings.HasPrefix(l, "github.com/uber-go/tally/v4/m3.") {
+				f := strings.TrimPrefix(l, "github.com/uber-go/tally/v4/m3.")
+				if k := strings.LastIndex(f, "("); k >= 0 {
+					f = f[:k]
+				}
+				frames = append(frames, f)
+			}
+		}
+		out = append(out, state+" "+strings.Join(frames, " < "))
+	}
+	sort.Strings(out)
+	return strings.Join(out, " | ")
+}
+
 func renderValueBound(v float64, prec int) string {
 	if v == math.MaxFloat64 {
 		return "infinity"
@@ -456,12 +538,22 @@ func renderDurationBound(d time.Duration) string {
 	return d.String()
 }
 
-func logEmits(cols []*sinkCollector, compact bool, commonWant map[string]string, constructedLo int64, callHi map[string]int64, cids map[string]int, mu *sync.Mutex, log func(M)) {
+func logEmits(cols []*sinkCollector, compact bool, maxPacket int, commonWant map[string]string, constructedLo int64, callHi map[string]int64, cids map[string]int, mu *sync.Mutex, log func(M)) {
 	for si, c := range cols {
 		for _, d := range c.take() {
 			b, _, ok, why := decodeBatch(d, compact)
-			ev := M{"e": "emit", "dest": si + 1, "len": len(d), "ok": ok, "why": why, "mets": []M{}, "common_ok": true}
+			ev := M{"e": "emit", "dest": si + 1, "len": len(d), "ok": ok, "why": why, "mets": []M{}, "common_ok": true, "alone_ok": true}
 			if ok {
+				// C12's proviso "provided each single metric fits on its own"
+				sum, largest := 0, 0
+				for _, m := range b.Metrics {
+					n := encodedMetricLen(m, compact)
+					sum += n
+					if n > largest {
+						largest = n
+					}
+				}
+				ev["alone_ok"] = len(d)-sum+largest <= maxPacket
 				ct := map[string]string{}
 				for _, t := range b.CommonTags {
 					ct[t.Name] = t.Value
